@@ -45,6 +45,28 @@
 (* FALSE) must violate LeaseWithinGrant.  With CeilOnCut the SetUntil clamp *)
 (* is redundant: the deadline handed to it is already anchored at the      *)
 (* observation.                                                             *)
+(*                                                                         *)
+(* NEGATIVE ANSWERS (content kind cfg.kind = "negsub").  "... every answer, *)
+(* NEGATIVE ANSWER, DS/DNSKEY record and deeper delegation learned through  *)
+(* the old delegation has stopped being served by then".  Besides www.c.p.  *)
+(* (in every copy of c.p.) clients ask for XNames: 1 = d.c.p., 2 = a name   *)
+(* below it.  A copy of c.p. Has them or -- version 1 under every parent -- *)
+(* lacks the whole subtree: its (signed, validated) NXDOMAIN is cached both *)
+(* as the exact entry and as the RFC 8020 cut / RFC 8198 proofs that answer *)
+(* every name at or below d.c.p. (cutx; the exact entry never outlives it), *)
+(* bounded by the cut of the delegation it was learned through like any     *)
+(* answer.  Such a copy may be SLOW about its denials (cfg.lat ticks; the   *)
+(* harness holds the reply back lat s - 0.5 s): the reply is written to the *)
+(* cache when the lease it was learned under may ALREADY have ended.  The   *)
+(* intended cache (nxDomainCutCache.record, denialProofExpiry, the entry's  *)
+(* cutUntil) treats a deadline in the past like any other: nothing is       *)
+(* admitted.  The validation that follows the late reply looks c.p.'s       *)
+(* DNSKEY up when every lease has run out, so it walks down again and the   *)
+(* parent's referral is observed anew (a new grant for the version the      *)
+(* parent names THEN; if that is no longer the copy that signed the denial  *)
+(* the reply is SERVFAIL).  Model mutant CutAdmitsPast: a deadline that is  *)
+(* already past is taken for "no deadline", the subtree denial is admitted  *)
+(* for its own negative TTL -- must violate FollowsParent.                  *)
 (***************************************************************************)
 EXTENDS Naturals, Sequences, FiniteSets, TLC
 
@@ -58,12 +80,18 @@ CONSTANTS TTLs,          \* referral TTLs, e.g. 1..3
           Jumps,         \* clock advances of the long-lease family (RealTime = FALSE)
           RealTime,      \* TRUE: 1 s Tick / Hot (the harness sleeps); FALSE: Jump only (virtual clock)
           CeilOnCut,     \* FALSE = mutant: the reported cut of the learning resolution ignores the ceiling
-          CeilOnStore    \* FALSE = mutant: SetUntil does not clamp
+          CeilOnStore,   \* FALSE = mutant: SetUntil does not clamp
+          KindSet,       \* content kinds: "pos" (www.c.p. only) | "negsub" (a denied subtree next to it)
+          Lats,          \* ticks a copy of c.p. that lacks the subtree holds its denials back
+          CutAdmitsPast  \* TRUE = mutant: a cut deadline already in the past bounds nothing at admission
 
 VARIABLES cfg, now, pver, cver, nextP, leaseP, leaseC, ans, neg, reply, rat, nq, nch,
-          grantP, grantC   \* ghosts: what the parents granted, per version
+          grantP, grantC,  \* ghosts: what the parents granted, per version
+          cutx,            \* negsub: the cached denial of the subtree d.c.p. (RFC 8020 cut, exact entries, RFC 8198 proofs)
+          posx,            \* negsub: cached positive answers for the XNames
+          rneg             \* the last reply is a denial learned through delegation versions reply[1], reply[2]
 
-vars == <<cfg, now, pver, cver, nextP, leaseP, leaseC, ans, neg, reply, rat, nq, nch, grantP, grantC>>
+vars == <<cfg, now, pver, cver, nextP, leaseP, leaseC, ans, neg, reply, rat, nq, nch, grantP, grantC, cutx, posx, rneg>>
 
 None == [exp |-> 0, pv |-> 0, cv |-> 0]
 \* an answer also remembers when it would have ended had no ceiling applied (raw): reachability only
@@ -74,7 +102,9 @@ Min(a, b) == IF a < b THEN a ELSE b
 Max(a, b) == IF a > b THEN a ELSE b
 
 Cfgs == [pNS : TTLs, pDS : TTLs, cNS : TTLs, cDS : TTLs, signed : SignedSet, child : ChildSet,
-         childTTL : ChildTTLs, deep : DeepSet, valDelay : ValDelays]
+         childTTL : ChildTTLs, deep : DeepSet, valDelay : ValDelays, kind : KindSet, lat : Lats]
+XNames == {1, 2}         \* 1 = d.c.p. (the denied name), 2 = www.d.c.p. (a name below it)
+Has(c) == c >= 2         \* which copies of c.p. have the subtree: every re-pointed one
 
 PTTL == IF cfg.signed THEN Min(cfg.pNS, cfg.pDS) ELSE cfg.pNS
 CTTL == IF cfg.signed THEN Min(cfg.cNS, cfg.cDS) ELSE cfg.cNS
@@ -89,8 +119,11 @@ CutOf(ttl) == now + (IF CeilOnCut THEN Min(ttl, Ceil) ELSE ttl)
 Stored(deadline) == IF CeilOnStore THEN Min(deadline, now + Ceil) ELSE deadline
 
 \* (long-lease family: an unsigned hierarchy has no DS, its DS TTLs are not a dimension)
+\* (negsub: only a validated denial is shared below the denied name -- a signed hierarchy; real time; plain child)
 Init == /\ cfg \in {c \in Cfgs : /\ (c.valDelay > 0 => c.signed)
-                                 /\ ((~RealTime /\ ~c.signed) => (c.pDS = c.pNS /\ c.cDS = c.cNS))}
+                                 /\ ((~RealTime /\ ~c.signed) => (c.pDS = c.pNS /\ c.cDS = c.cNS))
+                                 /\ (c.kind = "negsub" => (c.signed /\ RealTime /\ ~c.deep /\ c.child = "long" /\ c.valDelay = 0))
+                                 /\ (c.lat > 0 => c.kind = "negsub")}
         /\ now = 0
         /\ pver = 1
         /\ cver = [p \in 1..MaxP |-> IF p = 1 THEN 1 ELSE 0]
@@ -99,6 +132,7 @@ Init == /\ cfg \in {c \in Cfgs : /\ (c.valDelay > 0 => c.signed)
         /\ reply = NoReply /\ rat = 0 /\ nq = 0 /\ nch = 0
         /\ grantP = [p \in 1..MaxP |-> 0]
         /\ grantC = [p \in 1..MaxP |-> [c \in 1..MaxP |-> 0]]
+        /\ cutx = None /\ posx = [n \in XNames |-> None] /\ rneg = FALSE
 
 Live(l) == l.pv # 0 /\ now < l.exp
 
@@ -146,20 +180,94 @@ Resolve ==
                       ng |-> neg, rep |-> <<lc2.pv, lc2.cv>>, gp |-> gp1, gc |-> gc1]
 
 DoQuery ==
-  IF Live(ans)
-  THEN /\ reply' = <<ans.pv, ans.cv>>
-       /\ UNCHANGED <<leaseP, leaseC, ans, neg, grantP, grantC>>
-  ELSE IF now < neg
-  THEN /\ reply' = <<0, 0>>
-       /\ UNCHANGED <<leaseP, leaseC, ans, neg, grantP, grantC>>
-  ELSE LET r == Resolve
-       IN /\ leaseP' = r.lp /\ leaseC' = r.lc /\ ans' = r.an /\ neg' = r.ng
-          /\ reply' = r.rep /\ grantP' = r.gp /\ grantC' = r.gc
+  /\ rneg' = FALSE /\ UNCHANGED <<cutx, posx>>
+  /\ IF Live(ans)
+     THEN /\ reply' = <<ans.pv, ans.cv>>
+          /\ UNCHANGED <<leaseP, leaseC, ans, neg, grantP, grantC>>
+     ELSE IF now < neg
+     THEN /\ reply' = <<0, 0>>
+          /\ UNCHANGED <<leaseP, leaseC, ans, neg, grantP, grantC>>
+     ELSE LET r == Resolve
+          IN /\ leaseP' = r.lp /\ leaseC' = r.lc /\ ans' = r.an /\ neg' = r.ng
+             /\ reply' = r.rep /\ grantP' = r.gp /\ grantC' = r.gc
 
 Query == /\ nq < MaxQueries
          /\ DoQuery /\ rat' = now
          /\ nq' = nq + 1
          /\ UNCHANGED <<cfg, now, pver, cver, nextP, nch>>
+
+(***************************************************************************)
+(* negsub: a client query for d.c.p. / a name below it.  Atomic as well,    *)
+(* but a slow denial takes cfg.lat ticks: the clock moves with it.          *)
+(***************************************************************************)
+LiveAt(l, t) == l.pv # 0 /\ t < l.exp
+CutOfAt(t, ttl) == t + (IF CeilOnCut THEN Min(ttl, Ceil) ELSE ttl)
+StoredAt(t, deadline) == IF CeilOnStore THEN Min(deadline, t + Ceil) ELSE deadline
+
+\* the descent root -> p -> c at time t from the stored leases lP / lC (the arithmetic of Resolve): the leases
+\* afterwards, the cut each level contributes to the request tree, the grants
+WalkAt(t, lP, lC, gP, gC) ==
+  LET haveP == LiveAt(lP, t)
+      cutP == IF haveP THEN lP.exp ELSE CutOfAt(t, PTTL)
+      lp1 == IF haveP THEN lP
+             ELSE IF pver = 0 THEN None
+             ELSE [exp |-> StoredAt(t, cutP), pv |-> pver, cv |-> 0]
+      gp1 == IF ~haveP /\ pver # 0 THEN [gP EXCEPT ![pver] = t + GrantOf(PTTL)] ELSE gP
+  IN IF lp1.pv = 0
+     THEN [lp |-> None, lc |-> None, cutP |-> 0, cutC |-> 0, gp |-> gp1, gc |-> gC]
+     ELSE LET sameP == LiveAt(lC, t) /\ lC.pv = lp1.pv
+              cNow == cver[lp1.pv]
+              rawC == Min(CutOfAt(t, CTTL), cutP)
+              lc1 == IF sameP THEN lC
+                     ELSE IF cNow = 0 THEN None
+                     ELSE [exp |-> StoredAt(t, rawC), pv |-> lp1.pv, cv |-> cNow]
+              gc1 == IF ~sameP /\ cNow # 0 THEN [gC EXCEPT ![lp1.pv][cNow] = Min(t + GrantOf(CTTL), gp1[lp1.pv])] ELSE gC
+          IN [lp |-> lp1, lc |-> lc1, cutP |-> cutP, cutC |-> IF sameP THEN lC.exp ELSE rawC, gp |-> gp1, gc |-> gc1]
+
+ResolveX(n) ==
+  LET w == WalkAt(now, leaseP, leaseC, grantP, grantC)
+  IN IF w.lp.pv = 0 \/ w.lc.pv = 0
+     THEN \* the root / p denies: NXDOMAIN for everything at or below c.p., bounded by p's cut (as in Resolve)
+          /\ leaseP' = w.lp /\ leaseC' = None /\ grantP' = w.gp /\ grantC' = w.gc
+          /\ neg' = IF w.lp.pv = 0 THEN now + NegTTL ELSE Min(now + NegTTL, w.cutP)
+          /\ reply' = <<0, 0>> /\ rneg' = FALSE /\ now' = now
+          /\ UNCHANGED <<cutx, posx>>
+     ELSE IF Has(w.lc.cv)
+     THEN /\ leaseP' = w.lp /\ leaseC' = w.lc /\ grantP' = w.gp /\ grantC' = w.gc
+          /\ posx' = [posx EXCEPT ![n] = [exp |-> Min(now + Min(Max(cfg.childTTL, Floor), CapTTL), w.cutC),
+                                          pv |-> w.lc.pv, cv |-> w.lc.cv]]
+          /\ reply' = <<w.lc.pv, w.lc.cv>> /\ rneg' = FALSE /\ now' = now
+          /\ UNCHANGED <<cutx, neg>>
+     ELSE \* the copy lacks the subtree; its denial arrives at wt (real time: between wt - 1 and wt)
+          LET wt == now + cfg.lat
+              \* the validation after a late reply: no lease left => the descent is repeated, the referrals re-observed
+              rw == IF w.lc.exp < wt THEN WalkAt(wt, w.lp, w.lc, w.gp, w.gc) ELSE w
+              \* c.p.'s DNSKEY must still come from the copy that signed the denial
+              valid == rw.lc.pv = w.lc.pv /\ rw.lc.cv = w.lc.cv
+              \* a deadline in the past: nothing is admitted  (cutC = wt: the deadline is less than a tick ahead when
+              \* the reply is written and bounds the entry; no later step sees it alive)
+              exp == IF w.cutC >= wt THEN Min(wt + NegTTL, w.cutC)
+                     ELSE IF CutAdmitsPast THEN wt + NegTTL ELSE 0
+          IN /\ leaseP' = rw.lp /\ leaseC' = rw.lc /\ grantP' = rw.gp /\ grantC' = rw.gc
+             /\ cutx' = IF valid /\ exp > wt THEN [exp |-> exp, pv |-> w.lc.pv, cv |-> w.lc.cv] ELSE None
+             /\ reply' = IF valid THEN <<w.lc.pv, w.lc.cv>> ELSE NoReply   \* (else SERVFAIL: bogus)
+             /\ rneg' = valid /\ now' = wt
+             /\ UNCHANGED <<posx, neg>>
+
+QueryX(n) ==
+  /\ cfg.kind = "negsub" /\ nq < MaxQueries /\ now + cfg.lat <= Horizon
+  /\ rat' = now /\ nq' = nq + 1
+  /\ UNCHANGED <<cfg, pver, cver, nextP, nch, ans>>
+  /\ IF Live(posx[n])
+     THEN /\ reply' = <<posx[n].pv, posx[n].cv>> /\ rneg' = FALSE
+          /\ UNCHANGED <<now, leaseP, leaseC, neg, grantP, grantC, cutx, posx>>
+     ELSE IF Live(cutx)
+     THEN /\ reply' = <<cutx.pv, cutx.cv>> /\ rneg' = TRUE
+          /\ UNCHANGED <<now, leaseP, leaseC, neg, grantP, grantC, cutx, posx>>
+     ELSE IF now < neg
+     THEN /\ reply' = <<0, 0>> /\ rneg' = FALSE
+          /\ UNCHANGED <<now, leaseP, leaseC, neg, grantP, grantC, cutx, posx>>
+     ELSE ResolveX(n)
 
 \* keep the name hot for one whole tick: a query now, then every 300 ms until the next tick
 Hot == /\ RealTime /\ nq < MaxQueries /\ now < Horizon
@@ -171,16 +279,16 @@ Hot == /\ RealTime /\ nq < MaxQueries /\ now < Horizon
 Tick == /\ RealTime /\ now < Horizon
         /\ now' = now + 1
         /\ reply' = NoReply
-        /\ UNCHANGED <<cfg, pver, cver, nextP, leaseP, leaseC, ans, neg, rat, nq, nch, grantP, grantC>>
+        /\ UNCHANGED <<cfg, pver, cver, nextP, leaseP, leaseC, ans, neg, rat, nq, nch, grantP, grantC, cutx, posx, rneg>>
 
 \* hours pass (long-lease family): nothing is in flight, the harness shifts every stored timestamp by d
 Jump(d) == /\ ~RealTime /\ now + d <= Horizon
            /\ now' = now + d
            /\ reply' = NoReply
-           /\ UNCHANGED <<cfg, pver, cver, nextP, leaseP, leaseC, ans, neg, rat, nq, nch, grantP, grantC>>
+           /\ UNCHANGED <<cfg, pver, cver, nextP, leaseP, leaseC, ans, neg, rat, nq, nch, grantP, grantC, cutx, posx, rneg>>
 
 Changed == /\ nch' = nch + 1 /\ reply' = NoReply
-           /\ UNCHANGED <<cfg, now, leaseP, leaseC, ans, neg, rat, nq, grantP, grantC>>
+           /\ UNCHANGED <<cfg, now, leaseP, leaseC, ans, neg, rat, nq, grantP, grantC, cutx, posx, rneg>>
 
 ParentWithdraw == /\ nch < MaxChanges /\ pver # 0 /\ cver[pver] # 0
                   /\ cver' = [cver EXCEPT ![pver] = 0]
@@ -200,7 +308,8 @@ RootRepoint == /\ nch < MaxChanges /\ pver # 0 /\ nextP <= MaxP
                /\ Changed
 
 Next == Query \/ Hot \/ Tick \/ ParentWithdraw \/ ParentRepoint \/ RootWithdraw \/ RootRepoint
-        \/ \E d \in Jumps : Jump(d)
+        \/ (\E d \in Jumps : Jump(d))
+        \/ (\E n \in XNames : QueryX(n))
 
 Spec == Init /\ [][Next]_vars
 
@@ -221,6 +330,8 @@ LeaseWithinGrant ==
   /\ Live(leaseC) => leaseC.exp <= grantC[leaseC.pv][leaseC.cv]
   /\ Live(leaseP) => leaseP.exp <= grantP[leaseP.pv]
   /\ Live(ans) => ans.exp <= grantC[ans.pv][ans.cv]
+  /\ Live(cutx) => cutx.exp <= grantC[cutx.pv][cutx.cv]
+  /\ \A n \in XNames : Live(posx[n]) => posx[n].exp <= grantC[posx[n].pv][posx[n].cv]
 
 TypeOK == /\ now \in 0..Horizon /\ pver \in 0..MaxP /\ nq \in 0..MaxQueries /\ nch \in 0..MaxChanges
 
@@ -231,4 +342,14 @@ NeverStaleWindow == ~(reply # NoReply /\ reply # <<0, 0>> /\ ~Current(reply[1], 
 \* resolver from the CeilOnCut mutant
 CeilTension == /\ ans.pv # 0 /\ ~Current(ans.pv, ans.cv) /\ ans.exp <= now /\ now < ans.raw
 NeverCeilTension == ~(CeilTension /\ nq < MaxQueries)
+\* ... and, in the denied-subtree family, a DENIAL by a copy of c.p. the parents no longer point at, served inside its
+\* lease (the window in which stale negative data is legal) ...
+NeverStaleDenial == ~(rneg /\ reply # NoReply /\ ~Current(reply[1], reply[2]))
+\* ... and the instant the CutAdmitsPast mutant differs at: a question about the denied subtree is still to come when
+\* every lease of the copy whose LATE denial (nothing admitted) was the last reply has ended, that copy is no longer
+\* the parents' choice and the one that is has the name
+PastLeaseTension == /\ rneg /\ reply # NoReply /\ ~Live(cutx) /\ cfg.lat > 0
+                    /\ ~Current(reply[1], reply[2]) /\ pver # 0 /\ Has(cver[pver])
+                    /\ grantC[reply[1]][reply[2]] <= now
+NeverPastLeaseTension == ~(PastLeaseTension /\ nq < MaxQueries)
 =============================================================================
